@@ -301,14 +301,15 @@ def gen_c07(rng, fs, i, cfg):
     extra = [c for c in colspec if c != "count"]
     if extra and rng.random() < 0.6:
         op["columns"] = ["count"] + extra if rng.random() < 0.7 else extra
-    if rng.random() < 0.15:
+    multi = bool(op["columns"]) and len(op["columns"]) >= 2
+    if rng.random() < (0.4 if multi else 0.15):
         col = rng.choice(op["columns"] or ["count"])
         op["agg"] = {col: rng.choice(["max", "min", "count"])}
         if op["agg"][col] == "count":
             cdt = str(fs.lookup(*ins[0]).coll.pixels[col].dtype) if col in fs.lookup(*ins[0]).coll.pixels else "x"
             if not cdt.startswith("int"):
                 op["agg"][col] = "max"       # a count is stored in the column's own type
-    if rng.random() < 0.15 and (not op["agg"] or op["columns"]):
+    if rng.random() < (0.35 if multi else 0.15) and (not op["agg"] or op["columns"]):
         op["cli"] = True
         if fid not in fs.files and rng.random() < 0.5:
             op["mode"] = "w"
